@@ -241,4 +241,38 @@ def PruneFlags.names (f : PruneFlags) (ref : T) (sampled : List String) : List S
 def prune (f : PruneFlags) (ref : T) (sampled : List String) : Except Err (T × Index) :=
   removeTips f.revert (f.names ref sampled) ref
 
+/-- `RunE` over the trees of the input (file or stdin), prune.go:125-147: the trees are pruned
+    in order with the same flags (the file of `-f` and the tree of `-c` are read once, the names
+    of `-c` and `--random` are recomputed for every tree), each result is written (`-o` file or
+    stdout, one Newick line per tree) before the next tree is looked at; the first failure stops
+    the command with a non-zero exit code and the results already written stay.
+    `samples` = what `randomTips` returned for each tree. -/
+def pruneAll (f : PruneFlags) : List T → List (List String) → List T × Option Err
+  | [], _ => ([], none)
+  | ref :: rest, samples =>
+    match prune f ref (samples.headD []) with
+    | .error e => ([], some e)
+    | .ok (t', _) =>
+      let r := pruneAll f rest samples.tail
+      (t' :: r.1, r.2)
+
+/- ## the tip file of `-f` (cmd/root.go:182 `parseStringFile`, :146 `Readln`) -/
+
+/-- `bufio.Reader.ReadLine` drops the "\r" of a "\r\n" line end -/
+def stripCR (l : String) : String :=
+  match l.toList.reverse with
+  | '\r' :: r => String.ofList r.reverse
+  | _ => l
+
+/-- The names `parseTipsFile` delivers: the lines of the file (a last line without line end
+    counts, an empty one does not), each split at ','; nothing is trimmed, an empty line gives
+    the empty name. -/
+def tipFileNames (content : String) : List String :=
+  let pieces := content.splitOn "\n"
+  let lines := pieces.dropLast.map stripCR ++ (match pieces.getLast? with
+    | some "" => []
+    | some l => [l]
+    | none => [])
+  lines.flatMap fun l => l.splitOn ","
+
 end Gotree.C06
